@@ -528,8 +528,9 @@ def gen_risky(rng, base_feats=None):
     """Script biased towards the shapes in which rewrite cycles and hanging
     substitutions live (property C03's anchors)."""
     feats = set(base_feats or rng.sample(
-        ['int', 'bv', 'let', 'deffun', 'str', 'quant', 'real', 'empty'],
-        rng.randint(2, 4)))
+        ['int', 'bv', 'let', 'deffun', 'str', 'quant', 'real', 'empty', 'dt',
+         'dt', 'fp', 'arr', 'uf', 'quoted'],
+        rng.randint(2, 5)))
     feats |= {rng.choice(['int', 'bv'])}
     g = Gen(rng, feats, size=rng.choice([1, 2, 3, 5]))
     text = g.script()
@@ -542,7 +543,7 @@ def gen_risky(rng, base_feats=None):
             break
     extra_decl = []
     extra = []
-    picks = rng.sample(range(10), rng.randint(2, 5))
+    picks = rng.sample(range(13), rng.randint(2, 5))
     for p in picks:
         if p == 0:
             extra_decl.append('(declare-const a Int)')
@@ -609,6 +610,33 @@ def gen_risky(rng, base_feats=None):
             extra.append(rng.choice([
                 '(assert (= e ()))', '(assert (> (+ e ()) e))',
                 '(assert (let ((w ())) (= w w)))'
+            ]))
+    for p in picks:
+        if p == 10:
+            if not any('Color' in ln for ln in lines):
+                extra_decl.append(rng.choice([
+                    '(declare-datatype Color ((red) (green)))',
+                    '(declare-datatypes ((Color 0)) (((red) (green) (blue))))'
+                ]))
+            n = rng.choice(['xc', 'c', 'zcol'])
+            extra_decl.append(f'(declare-const {n} Color)')
+            extra.append(rng.choice([
+                f'(assert (distinct {n} green))', f'(assert (= {n} red))',
+                f'(assert ((_ is red) {n}))', f'(assert (= {n} {n}))'
+            ]))
+        elif p == 11:
+            extra_decl.append('(declare-const fx (_ FloatingPoint 8 24))')
+            extra.append(rng.choice([
+                '(assert (fp.lt fx (fp #b0 #b10000000 #b00000000000000000000000)))',
+                '(assert (fp.eq fx (_ +zero 8 24)))',
+                '(assert (fp.isNaN (fp.add RNE fx fx)))'
+            ]))
+        elif p == 12:
+            extra_decl.append('(declare-const ar (Array Int Int))')
+            extra_decl.append('(declare-const k Int)')
+            extra.append(rng.choice([
+                '(assert (= (select (store ar k 1) k) 1))',
+                '(assert (= ar (store ar 0 (select ar 0))))'
             ]))
     seen = set(lines)
     decls = []
